@@ -447,6 +447,24 @@ fn main() {
                 }
                 Ok("ok".into())
             });
+            rep.case("configured_parameter_case_applies_to_every_key", &format!("default_parameter_case=snake_case mode={}", mode), &|| {
+                let out = root.join(format!("inject/out_snake_{}", mode));
+                let _ = fs::remove_dir_all(&out);
+                let mut cfg = GenerateConfig::default();
+                cfg.project_path = dir.to_string_lossy().to_string();
+                cfg.output_path = out.to_string_lossy().to_string();
+                cfg.validation_library = mode.to_string();
+                cfg.default_parameter_case = "snake_case".to_string();
+                generate_from_config(&cfg).map_err(|e| format!("generate_from_config returned Err: {}", e))?;
+                let t = fs::read_to_string(out.join("types.ts")).map_err(|e| e.to_string())?;
+                let c = fs::read_to_string(out.join("commands.ts")).map_err(|e| e.to_string())?;
+                let mut keys = object_keys(&t, "Cmd0Params", mode == "zod").ok_or("UNPARSED: Cmd0Params not found")?;
+                if mode == "zod" { let head = "export interface Cmd0Params extends"; if let Some(st) = t.find(head) { let blk = &t[st..st + t[st..].find("\n}").unwrap_or(t.len() - st)]; for k in ["on_event", "onEvent"] { if blk.contains(k) { keys.push(k.to_string()); } } } }
+                keys.sort();
+                if keys != ["first_arg", "on_event", "second_arg"] { return Err(format!("with default_parameter_case = snake_case the keys of cmd_0 are {:?}, expected [first_arg, on_event, second_arg]", keys)); }
+                if mode == "zod" && c.contains("onEvent") { return Err("commands.ts re-attaches the channel under `onEvent` although the configured case is snake_case".into()); }
+                Ok(format!("{:?}", keys))
+            });
             rep.case("invoke_keys_follow_tauri_camel_case", &format!("fn shapes({}) mode={}", shapes.join(", "), mode), &|| {
                 let files = generate(&dir, &root.join(format!("inject/out_{}", mode)), mode)?;
                 let t = files.get("types.ts").ok_or("no types.ts")?;
@@ -541,7 +559,11 @@ fn main() {
         src.push_str("#[derive(Serialize, Deserialize)]\n#[serde(deny_unknown_fields, bound = \"\", rename_all_fields = \"SCREAMING_SNAKE_CASE\", rename_all = \"kebab-case\")]\npub enum Both { FastPath, SlowPath }\n");
         enums.push(("Both".to_string(), vec!["fast-path".to_string(), "slow-path".to_string()]));
         cmd_params.push("fo: FieldsOnly, bo: Both".to_string());
-        src.push_str("#[derive(Debug, Clone)]\npub struct NotSerde { pub x: u32 }\n");
+        src.push_str("pub mod db {\n    /// Database row: we deliberately do not derive Serialize or Deserialize here\n    #[derive(Debug, Clone)]\n    pub struct Shadow { pub secret_hash: String, pub failed_logins: u32 }\n}\n");
+        src.push_str("pub mod api {\n    use serde::{Serialize, Deserialize};\n    #[derive(Serialize, Deserialize)]\n    pub struct Shadow { pub shown: u32 }\n}\n");
+        structs.push(("Shadow".to_string(), vec![("shown".to_string(), false)]));
+        cmd_params.push("sh: api::Shadow".to_string());
+        src.push_str("/// does not derive(Serialize, Deserialize): internal\n#[derive(Debug, Clone)]\npub struct NotSerde { pub x: u32 }\n");
         src.push_str(&format!("#[tauri::command]\npub fn take({}) -> u32 {{ 0 }}\n", cmd_params.join(", ")));
         let dir = root.join("serde/src");
         write_files(&dir, &[("lib.rs".to_string(), src)]);
@@ -598,6 +620,17 @@ fn main() {
                 let kn = object_keys(n, sname, false).ok_or(format!("plain mode does not declare {} as an object type", sname))?;
                 let kz = object_keys(z, sname, true).ok_or(format!("zod mode does not declare {}Schema as z.object", sname))?;
                 if kn == kz { Ok(format!("{:?}", kn)) } else { Err(format!("keys differ: plain {:?}, zod {:?}", kn, kz)) }
+            });
+        }
+        for (sname, _) in &structs {
+            rep.case("both_modes_same_optionality", &format!("serde struct {}", sname), &|| {
+                let n = none.as_ref().map_err(|e| e.clone())?.get("types.ts").ok_or("no types.ts (none)")?;
+                let z = zod.as_ref().map_err(|e| e.clone())?.get("types.ts").ok_or("no types.ts (zod)")?;
+                let head = format!("export interface {} {{", sname);
+                let st = n.find(&head).ok_or(format!("UNPARSED: plain mode does not declare {} as `export interface`", sname))? + head.len();
+                let plain_opt: BTreeSet<String> = n[st..].lines().take_while(|l| !l.trim().starts_with('}')).filter_map(|l| { let l = l.trim(); l.find("?:").filter(|p| !l[..*p].contains(':')).map(|p| l[..p].trim_matches('"').to_string()) }).collect();
+                let zod_opt: BTreeSet<String> = object_entries(z, sname, true).ok_or(format!("UNPARSED: zod mode does not declare {}Schema as z.object", sname))?.into_iter().filter(|(_, v)| v.ends_with(".optional()") || v.ends_with(".nullish()")).map(|(k, _)| k.trim_matches('"').to_string()).collect();
+                if plain_opt == zod_opt { Ok(format!("{:?}", plain_opt)) } else { Err(format!("keys that may be left out: plain {:?}, zod {:?}", plain_opt, zod_opt)) }
             });
         }
         for (ename, _) in &enums {
@@ -853,7 +886,8 @@ fn main() {
             #[tauri::command]\npub fn level(app: tauri::AppHandle, l: Level) -> Level {{ app.emit(\"level:set\", l.clone()).ok(); l }}\n\
             #[tauri::command]\npub fn levels() -> Result<Vec<Level>, String> {{ Ok(vec![]) }}\n\
             #[tauri::command]\npub fn qualified(i: crate::Item, l: std::option::Option<self::Level>) -> std::result::Result<Vec<crate::Level>, String> {{ Ok(vec![]) }}\n\
-            #[derive(Serialize, Deserialize)]\npub struct Holder {{ pub item: crate::Item, pub by_level: std::collections::HashMap<String, crate::Level> }}\n\
+            #[derive(Serialize, Deserialize)]\npub struct Holder {{ pub item: crate::Item, pub by_level: std::collections::HashMap<String, crate::Level>, pub pair: (crate::Item, u32), pub lookup: HashMap<String, (std::string::String, crate::Level)> }}\n\
+            #[tauri::command]\npub fn pairs() -> Result<(std::string::String, Vec<std::primitive::u32>), String> {{ todo!() }}\n\
             #[tauri::command]\npub fn holder() -> crate::Holder {{ todo!() }}\n\
             #[tauri::command]\npub fn delete(id: u32) -> u32 {{ id }}\n\
             #[tauri::command]\npub fn new() -> u32 {{ 0 }}\n\
@@ -906,6 +940,8 @@ fn main() {
             ("f_len_then_url_attr", "#[validate(length(min = 3, max = 20, message = \"3 to 20\"))]\n    #[validate(url)]", "String", false, true, vec![".min(3", ".max(20", "3 to 20"], vec![]),
             ("f_len_email_url_attrs", "#[validate(length(max = 64))]\n    #[validate(email)]\n    #[validate(url)]", "String", true, true, vec![".max(64"], vec![]),
             ("f_email_len_url_attrs", "#[validate(email)]\n    #[validate(length(min = 7))]\n    #[validate(url)]", "String", true, true, vec![".min(7"], vec![]),
+            ("f_len_then_email_msg", "#[validate(length(min = 3, max = 64), email(message = \"not an e-mail address\"))]", "String", true, false, vec![".min(3)", ".max(64)"], vec!["min(3, {", "max(64, {"]),
+            ("f_len_then_custom_msg", "#[validate(length(min = 4), custom(function = \"check_it\", message = \"custom says no\"))]", "String", false, false, vec![".min(4)"], vec!["custom says no"]),
             ("f_msg_mentions", "#[validate(length(min = 1, message = \"not an email or url\"))]", "String", false, false, vec![".min(1", "not an email or url"], vec![]),
             ("f_custom_str", "#[validate(custom(function = \"check_email_domain\"))]", "String", false, false, vec![], vec![]),
             ("f_range_neg", "#[validate(range(min = -10, max = -1.5))]", "f64", false, false, vec![".min(-10", ".max(-1.5"], vec![]),
@@ -1161,6 +1197,55 @@ fn main() {
                 }
                 lexical_wellformed(&again)?;
                 Ok(format!("{} files", fresh.len()))
+            });
+        }
+    }
+    // ============================================================ C09 / C07 / C15 / C02: multi-file shapes
+    {
+        // dependencies going back and forth between two files (acyclic): Address <- Customer <- Order, Order -> Address
+        let catalog = format!("{}use crate::people::Customer;\n#[derive(Serialize, Deserialize, Clone)]\npub struct Address {{ pub street: String }}\n#[derive(Serialize, Deserialize, Clone)]\npub struct Order {{ pub customer: Customer, pub ship_to: Address, pub notes: Vec<Note> }}\n#[derive(Serialize, Deserialize, Clone)]\npub struct Note {{ pub by: Customer }}\n#[tauri::command]\npub fn order(id: u32) -> Order {{ todo!() }}\n", HDR);
+        let people = format!("{}use crate::catalog::Address;\n#[derive(Serialize, Deserialize, Clone)]\npub struct Customer {{ pub address: Address, pub zone: Zone }}\n#[derive(Serialize, Deserialize, Clone)]\npub enum Zone {{ North, South }}\n", HDR);
+        let dir = root.join("pingpong/src");
+        write_files(&dir, &[("catalog.rs".to_string(), catalog), ("people.rs".to_string(), people)]);
+        let tys = ["Address", "Order", "Note", "Customer", "Zone"];
+        for mode in ["none", "zod"] {
+            let files = generate(&dir, &root.join(format!("pingpong/out_{}", mode)), mode);
+            rep.case("mentioned_project_types_are_declared", &format!("project=pingpong mode={}", mode), &|| types_module_is_closed(files.as_ref().map_err(|e| e.clone())?, &tys));
+            rep.case("type_references_resolve", &format!("project=pingpong mode={}", mode), &|| references_resolve(files.as_ref().map_err(|e| e.clone())?, &tys));
+            if mode == "zod" { rep.case("schemas_defined_before_use", "project=pingpong", &|| schemas_defined_before_use(files.as_ref().map_err(|e| e.clone())?.get("types.ts").ok_or("no types.ts")?)); }
+        }
+        // file and directory names that merely start like the excluded ones (target/, .git/); a real target/ directory is skipped
+        let cmds = format!("{}use crate::targets::DeployTarget;\n#[tauri::command]\npub fn deploy(t: DeployTarget) -> u32 {{ 0 }}\n", HDR);
+        let targets = format!("{}#[derive(Serialize, Deserialize)]\npub struct DeployTarget {{ pub host: crate::deploy::target_host::TargetHost, pub kind: TargetKind, pub os: crate::target_os::Os }}\n#[derive(Serialize, Deserialize)]\npub enum TargetKind {{ Staging, Production }}\n", HDR);
+        let host = format!("{}#[derive(Serialize, Deserialize)]\npub struct TargetHost {{ pub name: String, pub git: crate::gitops::GitRef }}\n", HDR);
+        let os = format!("{}#[derive(Serialize, Deserialize)]\npub enum Os {{ Linux, Mac }}\n", HDR);
+        let gitops = format!("{}#[derive(Serialize, Deserialize)]\npub struct GitRef {{ pub sha: String }}\n", HDR);
+        let stale = format!("{}#[derive(Serialize, Deserialize)]\npub struct StaleBuildArtifact {{ pub x: u32 }}\n#[tauri::command]\npub fn from_build_dir(s: StaleBuildArtifact) -> u32 {{ 0 }}\n", HDR);
+        let dir = root.join("filenames/src");
+        write_files(&dir, &[("commands.rs".to_string(), cmds), ("targets.rs".to_string(), targets), ("deploy/target_host.rs".to_string(), host), ("target_os/mod.rs".to_string(), os), ("gitops.rs".to_string(), gitops),
+            ("target/debug/build/out.rs".to_string(), stale.clone()), (".git/hooks/sample.rs".to_string(), stale)]);
+        let tys = ["DeployTarget", "TargetKind", "TargetHost", "Os", "GitRef"];
+        for mode in ["none", "zod"] {
+            let files = generate(&dir, &root.join(format!("filenames/out_{}", mode)), mode);
+            rep.case("mentioned_project_types_are_declared", &format!("project=filenames mode={}", mode), &|| {
+                let files = files.as_ref().map_err(|e| e.clone())?;
+                let t = files.get("types.ts").ok_or("no types.ts")?;
+                let exp = exports_of(t);
+                for n in tys { if !exp.contains(n) && !exp.contains(&format!("{}Schema", n)) { return Err(format!("{} (defined in a file whose name starts like target/ or .git/) is reachable from command `deploy` but not declared", n)); } }
+                if t.contains("StaleBuildArtifact") || files.get("commands.ts").map_or(false, |c| c.contains("fromBuildDir")) { return Err("files below target/ or .git/ were analysed".into()); }
+                types_module_is_closed(files, &tys)
+            });
+        }
+        // mutually recursive types (legal with Vec / Option indirection): generation terminates and declares both
+        let mutual = format!("{}#[derive(Serialize, Deserialize, Clone)]\npub struct User {{ pub comments: Vec<Comment>, pub best: Option<Box<Comment>> }}\n#[derive(Serialize, Deserialize, Clone)]\npub struct Comment {{ pub author: Option<User>, pub replies: Vec<Comment>, pub thread: Thread }}\n#[derive(Serialize, Deserialize, Clone)]\npub struct Thread {{ pub starter: Vec<User> }}\n#[tauri::command]\npub fn feed(u: User) -> Vec<Comment> {{ vec![] }}\n", HDR);
+        let dir = root.join("mutual/src");
+        write_files(&dir, &[("lib.rs".to_string(), mutual)]);
+        for mode in ["none", "zod"] {
+            rep.case("mutually_recursive_types_are_generated", &format!("project=mutual mode={}", mode), &|| {
+                let files = generate(&dir, &root.join(format!("mutual/out_{}", mode)), mode)?;
+                let exp = exports_of(files.get("types.ts").ok_or("no types.ts")?);
+                for n in ["User", "Comment", "Thread"] { if !exp.contains(n) && !exp.contains(&format!("{}Schema", n)) { return Err(format!("{} is not declared", n)); } }
+                Ok("ok".into())
             });
         }
     }
